@@ -192,25 +192,32 @@ Lemma step_cancelled_mono : forall s e s' r,
   step s e = Some s' -> cancelled s r = true -> cancelled s' r = true.
 Proof.
   intros s e s' r H Hc. step_inv H; norm; auto.
-  - rewrite cancelled_arrive; auto.
-  - rewrite Hc. reflexivity.
+  all: try (rewrite cancelled_arrive; auto; fail).
+  all: rewrite Hc; reflexivity.
 Qed.
 
-(** a request becomes cancelled only in "cancel the rest" of a drain whose
-    deadline was hit, whose snapshot holds it, while it is in flight *)
+(** a request becomes cancelled only (a) in "cancel the rest" of a drain whose
+    deadline was hit, whose snapshot holds it, while it is in flight; or (b) at
+    the snapshot of a drain that lists it as an upgraded connection *)
 Lemma step_cancelled_new : forall s e s' r,
   step s e = Some s' -> cancelled s r = false -> cancelled s' r = true ->
-  exists t x d sn, e_k e = KDrainCancelRest t /\ nget (targets s) t = Some x /\
-    nget (t_drains x) (goid (e_by e)) = Some d /\ d_snap d = Some sn /\
-    d_deadline_hit d = true /\ In r sn /\ In r (t_inflight x).
+  (exists t x d sn, e_k e = KDrainCancelRest t /\ nget (targets s) t = Some x /\
+     nget (t_drains x) (goid (e_by e)) = Some d /\ d_snap d = Some sn /\
+     d_deadline_hit d = true /\ In r sn /\ In r (t_inflight x)) \/
+  (exists t x rs, e_k e = KDrainSnapshot t rs /\ nget (targets s) t = Some x /\
+     In (r, true) rs /\ In r (t_inflight x) /\ upgraded s r = true).
 Proof.
   intros s e s' r H Hc Hc'. step_inv H; norm; try congruence.
   - rewrite cancelled_arrive in Hc'; auto. congruence.
-  - rewrite Hc in Hc'. cbn [orb] in Hc'. apply andb_prop in Hc'. destruct Hc' as [Hm Hrec].
+  - (* snapshot *) right. rewrite Hc in Hc'. cbn [orb] in Hc'. apply andb_prop in Hc'. destruct Hc' as [Hm _].
+    apply hij_in_In in Hm. exists t, t0, inflight. repeat split; auto.
+    + rewrite forallb_forall in H1. apply nmem_In. apply H1.
+      apply in_map_iff. exists (r, true). auto.
+    + symmetry. exact (flags_spec s inflight H0 r true Hm).
+  - left. rewrite Hc in Hc'. cbn [orb] in Hc'. apply andb_prop in Hc'. destruct Hc' as [Hm Hrec].
     apply nmem_In, filter_In in Hm. destruct Hm as [Hsn Hfl]. apply nmem_In in Hfl.
     exists t, t0, d, l. repeat split; auto.
     destruct (d_deadline_hit d) eqn:Eh; auto. cbn [orb] in Heqb.
     rewrite forallb_forall in Heqb. specialize (Heqb r Hsn).
     apply nmem_In in Hfl. rewrite Hfl in Heqb. cbn in Heqb. fold (cancelled s r) in Heqb. congruence.
 Qed.
-
